@@ -191,7 +191,7 @@ def inter_list_rule(ctx, MAX):
                 else:
                     # Some only when every element was folded in (exit at exhaustion of a[1..]) and with the accumulator
                     t = ip.to_term(o.state, v[1][0])
-                    pos = [x for f in o.state.pc for x in T.subterms(f) if x[0] == 'var' and 'iter.pos@' in x[1]]
+                    pos = [x for f in o.state.pc for x in T.subterms(f) if x[0] == 'var' and '.pos@' in x[1]]
                     ok = bool(pos) and ip.entails(o.state, le(n, T.mk_add(pos[0], I(1)))) and t[0] == 'var' and '@bb' in t[1]
                     ctx.obligation(ok)
                     (ctx.ok if ok else ctx.violation)('C20.R5', 'C20.R5/inter_list/some-only-after-every-element-was-intersected', fn.path, fn.site(), {'returned': T.show(t)[:120], 'leaf_constraints': pc_text(o)}, cfg)
